@@ -81,6 +81,8 @@ def expr_text(e):
         return ":" + name_of(e["name"])
     if op == "ictx":
         return "&" + e["what"]
+    if op == "sel":
+        return "/" + name_of(e["name"]) + "/"
     raise ValueError(op)
 
 
@@ -274,6 +276,12 @@ def dup_rows(rnd, rows, p=0.4):
         if rnd.random() < p:
             d = rnd.choice(out)
             out.append(respell_numbers(rnd, d) if rnd.random() < 0.6 else d)
+    if rnd.random() < 0.3:
+        # rows that differ only in where a nested object ends (or in an empty collection against none): different rows, whatever a digest of them says
+        g = ("str", cps(rnd.choice(["a", "b"])))
+        for t in rnd.choice([('{"k":{"x":1}}', '{"k":{},"x":1}'), ('{"k":[[],1]}', '{"k":[[1]]}'), ('{"k":{"a":{}},"b":2}', '{"k":{"a":{"b":2}}}')]):
+            v = parse_ast(t)
+            out.insert(rnd.randrange(len(out) + 1), ("obj", [(cps("g"), g)] + v[1] + [(cps("f"), ("bool", True))]))
     return out
 
 
@@ -312,7 +320,7 @@ def rand_cfg(rnd, focus="all"):
     if focus in ("all", "split", "stream", "stop") and rnd.random() < (0.35 if focus != "split" else 0.9):
         c["split"] = rnd.choice([field("items"), field("items"), SELF])
     if rnd.random() < 0.35:
-        c["filter"] = field("f") if c["split"] == NOE or rnd.random() < 0.5 else field("f", up=0)
+        c["filter"] = field("f") if c["split"] == NOE or rnd.random() < 0.5 else field("f", up=rnd.choice([0, 1, 1]))      # the element's own flag or its record's
     if rnd.random() < 0.5:
         names = rnd.sample(["A", "B", "C", "id", "k1"], rnd.choice([1, 2, 3]))
         if len(names) > 1 and rnd.random() < 0.15:
@@ -322,6 +330,9 @@ def rand_cfg(rnd, focus="all"):
             e = rnd.choice([field("k1"), field("k2"), field("g"), field("id"), field("missing"), SELF, path(["items", 0, "k1"]), field("g", up=1),
                             var("v"), lit(("num", "7")), field("n"), ICTX_INDEX, ICTX_INDEX, ICTX_FIDX])
             sels.append({"name": cps(nm), "e": e})
+        # a later selection, the sort key or the group key may refer to an earlier selection by name: /A/
+        if len(sels) >= 2 and rnd.random() < 0.25:
+            sels[-1] = {"name": sels[-1]["name"], "e": {"op": "sel", "name": sels[0]["name"]}}
         c["selects"] = sels
     if rnd.random() < 0.3:
         c["set"] = [{"name": cps("v"), "v": enc(rnd.choice([("num", "7"), ("str", cps("x")), ("arr", [("num", "1")])]))}]
@@ -332,9 +343,11 @@ def rand_cfg(rnd, focus="all"):
         c["sorts"] = [{"e": field(k), "desc": rnd.random() < 0.5} for k in ks]
         if rnd.random() < 0.1:
             c["sorts"].append({"e": ICTX_INDEX, "desc": rnd.random() < 0.7})        # the record ordinal as the last key: ties in reverse arrival order
+        if c["selects"] and rnd.random() < 0.15:
+            c["sorts"][0] = {"e": {"op": "sel", "name": rnd.choice(c["selects"])["name"]}, "desc": rnd.random() < 0.5}
     if focus in ("all", "limit", "group", "stop") and rnd.random() < (0.5 if focus == "all" else 0.9):
         c["skip"] = rnd.choice([0, 0, 1, 2, 3, 6])
-        c["take"] = rnd.choice([-1, 0, 1, 2, 3, 5, 6]) if focus != "stop" else rnd.choice([0, 1, 2, 3, 5])
+        c["take"] = rnd.choice([-1, 0, 1, 2, 3, 5, 6, 9, 12, 20]) if focus != "stop" else rnd.choice([0, 1, 2, 3, 5])
     if focus in ("all", "group", "limit") and rnd.random() < (0.3 if focus != "group" else 1.0):
         c["group"] = rnd.choice([{"k": "by", "e": field("g")}, {"k": "by", "e": field("g")}, {"k": "merge", "e": NOE}])
     if rnd.random() < 0.15:
